@@ -186,6 +186,35 @@ func run(c *mon.Ctx) {
 				}
 			}
 		}
+		// PIDs with a meaning of their own (PAT, CAT, TSDT, 0x10 ... 0x12, the null PID and its neighbour) under
+		// every adaptation_field_control, with a body that has no zero byte and a short, long or zero-length
+		// adaptation field: a flag setter changes its flag there as anywhere else
+		for _, lo := range []byte{0x00, 0x01, 0x02, 0x10, 0x11, 0x12, 0xfe, 0xff} {
+			for afc := 0; afc < 4; afc++ {
+				for fi, f := range []ref.HField{ref.HTEI, ref.HPUSI, ref.HTP} {
+					for v := 0; v < 2; v++ {
+						var p packet.Packet
+						r.Fill(p[:])
+						for i := range p {
+							p[i] |= 1 << uint(r.Intn(8))
+						}
+						p[0], p[1], p[2] = 0x47, byte(b1), lo
+						p[3] = byte(r.Intn(4))<<6 | byte(afc)<<4 | byte(r.Intn(16))
+						p[4] = []byte{0, 1, 7, 10, 182, 183, p[4]}[r.Intn(7)]
+						val := v == 1
+						switch fi {
+						case 0:
+							setter(c, "SetTransportErrorIndicator", f, &p, uint64(v), func(q *packet.Packet) { q.SetTransportErrorIndicator(val) })
+						case 1:
+							setter(c, "SetPayloadUnitStartIndicator", f, &p, uint64(v), func(q *packet.Packet) { q.SetPayloadUnitStartIndicator(val) })
+						case 2:
+							setter(c, "SetTransportPriority", f, &p, uint64(v), func(q *packet.Packet) { q.SetTransportPriority(val) })
+						}
+						c.Count("flags.on_pids_with_a_meaning_of_their_own")
+					}
+				}
+			}
+		}
 	})
 
 	// ---- byte 3: TSC (4 values), CC (16 values + out-of-range), CC helpers
